@@ -282,6 +282,10 @@ def gen_cases(prop, seed, tier, want_faults=False, want_bad_names=False, fault_o
                         if op[0] in ("update", "setadmin") and renamed and res2["result"] == "err":
                             sig = ("%s: an I/O error in the open/fsync of the base directory that follows the rename is reported as failure "
                                    "although the rename has already taken effect" % op[0])
+                        unlinked = any(ev[0] == "EUnlink" and ev[1][0] == "file" for ev in res2["events"])
+                        if op[0] == "remove" and unlinked and res2["result"] == "err":
+                            sig = ("remove: an I/O error in the open/fsync of the base directory (or in removing the second file) that follows "
+                                   "an unlink is reported as failure although that unlink has already taken effect")
                         cases.append(make_case(prop, st, op, before, after, res2, (kind, j, e),
                                                "fault/%s/%s" % (op[0], kind), changed, sig=sig))
                         st.cleanup()
